@@ -118,6 +118,16 @@ def kmLut : Lut Rat := [("m", ⟨1, Dim.dLength, 0, true⟩), ("km", ⟨1000, Di
 def uM : UnitV Rat := ⟨UExpr.sym "m", 1, 0, Dim.dLength, true⟩
 def uKm : UnitV Rat := ⟨UExpr.sym "km", 1000, 0, Dim.dLength, true⟩
 
+/-- the unit `km/m` (as `unyt_array([..], 'km/m')` carries it: not simplified) -/
+def uKmPerM : UnitV Rat := ⟨⟨1, [("km", 1), ("m", -1)]⟩, 1000, 0, Dim.one, true⟩
+
+/-- whether the fix-up terminates -/
+def outFixupTerminates (r : Except Err (Option Rat)) : Option Bool :=
+  match r with
+  | .ok (some _) => some true
+  | .ok none => some false
+  | .error _ => none
+
 /-- the real kernels, at `Rat` -/
 def floorDivQ (a b : Rat) : Rat := ((a / b).floor : Int)
 def heavisideQ (a h : Rat) : Rat := if a < 0 then 0 else if a = 0 then h else 1
